@@ -177,7 +177,7 @@ class PandasMaterializer(FormulaMaterializer):
 
         # Special case no columns to empty csc_matrix, array, or DataFrame
         if not cols:
-            values = numpy.empty((self.data.shape[0], 0))
+            values = numpy.empty((self.nrows - len(drop_rows), 0))
             if spec.output == "sparse":
                 return spsparse.csc_matrix(values)
             if spec.output == "numpy":
